@@ -39,13 +39,26 @@ pub fn opening(h: &str) -> Option<PedersenOpening> {
     Some(PedersenOpening::new(scalar(h)?))
 }
 
+/// the Fiat-Shamir challenges recorded by the `verif-hooks` instrumentation since the last call
+pub fn take_trace() -> String {
+    let tr = solana_zk_sdk::transcript::verif_hooks::take();
+    if tr.is_empty() {
+        return String::new();
+    }
+    let items: Vec<String> = tr.iter().map(|(l, v)| format!("{}={}", String::from_utf8_lossy(l), hex(v))).collect();
+    format!(" ~{}", items.join(","))
+}
+
 fn verify_as<T: bytemuck::Pod + ZkProofData<U>, U: bytemuck::Pod>(b: &[u8]) -> String {
     match bytemuck::try_from_bytes::<T>(b) {
         Err(_) => "R".into(),
-        Ok(d) => match d.verify_proof() {
-            Ok(()) => "A".into(),
-            Err(e) => format!("R #{}", format!("{:?}", e).replace(' ', "_")),
-        },
+        Ok(d) => {
+            let _ = take_trace();
+            match d.verify_proof() {
+                Ok(()) => format!("A{}", take_trace()),
+                Err(e) => format!("R #{}{}", format!("{:?}", e).replace(' ', "_"), take_trace()),
+            }
+        }
     }
 }
 
